@@ -250,14 +250,15 @@ func (x *Exec) applyModifies(con *Contract, env *SpecEnv, pre, st State, key str
 	for _, m := range con.Modifies {
 		comps := map[string]bool{}
 		x.expandModComp(m.Comp, comps)
-		for c := range comps {
+		for _, c := range sortedKeys(comps) {
 			if _, ok := x.E.CompSorts[c]; !ok {
 				panic(fmt.Sprintf("contract error: %s modifies unknown component %s", key, c))
 			}
 			byComp[c] = append(byComp[c], m)
 		}
 	}
-	for c, ms := range byComp {
+	for _, c := range sortedKeys(byComp) {
+		ms := byComp[c]
 		sort := x.E.CompSorts[c]
 		whole := false
 		for _, m := range ms {
@@ -299,7 +300,7 @@ func (x *Exec) applyModifies(con *Contract, env *SpecEnv, pre, st State, key str
 func (x *Exec) invokeTargets(cc *ssa.CallCommon) []*ssa.Function {
 	var out []*ssa.Function
 	iface := cc.Value.Type().Underlying().(*types.Interface)
-	for key := range boxTable {
+	for _, key := range sortedKeys(boxTable) {
 		ct := x.E.typeByKey(key)
 		if ct == nil || !types.Implements(ct, iface) {
 			continue
@@ -345,7 +346,8 @@ func (x *Exec) doInvoke(fr *Frame, cc *ssa.CallCommon, recv Value, args []Value,
 	res := resDefault
 	stDefault := st.clone()
 	// known implementers
-	for key, bi := range boxTable {
+	for _, key := range sortedKeys(boxTable) {
+		bi := boxTable[key]
 		ct := x.E.typeByKey(key)
 		if ct == nil || !types.Implements(ct, iface) {
 			continue
